@@ -264,15 +264,17 @@ Definition gh0 : ghost := mkG true true true 0 0 0 0 0 0 [].
 
 Definition init_thread (p : list instr) : athread := mkT p SIdle [].
 
-Definition gh0k (ks : list stat) : ghost :=
-  mkG true true true 0 0 0 0 0 0 (map (fun x => (x, false)) ks).
+(* `remote`: the actor has a remote ActorId (ActorRuntime::spawn_linked_remote): it never has a name
+   or pid entry, but it can be a member / monitor of process groups like any other actor *)
+Definition gh0k (ks : list stat) (remote : bool) : ghost :=
+  mkG (negb remote) (negb remote) true 0 0 0 0 0 0 (map (fun x => (x, false)) ks).
 
 (* `ks`: the statuses of the children linked to the actor when it exits *)
-Definition mk_init_k (s0 : stat) (ws : list wpc) (progs : list (list instr)) (ks : list stat) : st :=
-  mkSt s0 0 false [] ws (map init_thread progs) [] (gh0k ks).
+Definition mk_init_k (s0 : stat) (ws : list wpc) (progs : list (list instr)) (ks : list stat) (remote : bool) : st :=
+  mkSt s0 0 false [] ws (map init_thread progs) [] (gh0k ks remote).
 
 Definition mk_init (s0 : stat) (ws : list wpc) (progs : list (list instr)) : st :=
-  mk_init_k s0 ws progs [].
+  mk_init_k s0 ws progs [] false.
 
 Definition wpc_initial (p : wpc) : bool := match p with W0 | WJoin => true | _ => false end.
 
@@ -306,7 +308,11 @@ Inductive cause :=
 | CPostStartKill (* kill signal while post_start is running *)
 | CAbort         (* the actor's loop task is cancelled (JoinHandle::abort / runtime shutdown) before its
                     first poll, while idle or inside a handler: Drop for ActorLifecycleGuard *)
-| CAbortPs       (* ... cancelled while post_stop is parked *).
+| CAbortPs       (* ... cancelled while post_stop is parked *)
+| CStopUnwind    (* graceful exit of an UNSUPERVISED actor whose final State has a panicking destructor:
+                    the terminal event is dropped inside cleanup() after terminate(), cleanup unwinds, and
+                    Drop for ActorLifecycleGuard (still armed) runs the whole cleanup again *)
+| CErrUnwind     (* same for a handler failure whose error value has a panicking destructor *).
 
 Definition guard_cleanup (ev sup : bool) : list instr :=
   [ISet Stopping; ITerminate] ++ (if ev && sup then [INotifySup] else [])
@@ -327,6 +333,9 @@ Definition exit_prog (c : cause) (sup : bool) : list instr :=
      cancellation of the loop task is reported (a cancelled start task is CPreStartFail: no event) *)
   | CAbort => [IGate 0] ++ guard_cleanup true sup
   | CAbortPs => [IGate 0; ISet Stopping; IPsEnter; IGate 2; IPsCancel] ++ guard_cleanup true sup
+  | CStopUnwind => [IGate 0; ISet Stopping; IPsEnter; IGate 1; IPsExit; ISet Stopping; ITerminate]
+                   ++ guard_cleanup true false
+  | CErrUnwind => [IGate 0; ISet Stopping; ISet Stopping; ITerminate] ++ guard_cleanup true false
   end.
 
 (* ---------- snapshots and the executable property ---------- *)
@@ -418,9 +427,9 @@ Definition check_C06 (want_ps want_sup complete : bool) (l : list obs) : bool :=
 
 (* expectations attached to a cause *)
 Definition want_ps_of (c : cause) : bool :=
-  match c with CStop | CStopKill | CAbortPs => true | _ => false end.
+  match c with CStop | CStopKill | CAbortPs | CStopUnwind => true | _ => false end.
 Definition want_sup_of (c : cause) (sup : bool) : bool :=
-  match c with CPreStartFail | CPreStartKill => false | _ => sup end.
+  match c with CPreStartFail | CPreStartKill | CStopUnwind | CErrUnwind => false | _ => sup end.
 
 (* ---------- E1 schedules: everything runs until it blocks ---------- *)
 Fixpoint repeat_l {A} (x : list A) (n : nat) : list A :=
@@ -480,29 +489,29 @@ Fixpoint mono_stats (prev : N) (l : list stat) : bool :=
   end.
 
 (* a scenario of the E1 engine *)
-Definition scenario_init_k (s0 : stat) (ws : list wpc) (c : cause) (sup : bool) (ks : list stat) : st :=
-  mk_init_k s0 ws [exit_prog c sup] ks.
+Definition scenario_init_k (s0 : stat) (ws : list wpc) (c : cause) (sup : bool) (ks : list stat) (remote : bool) : st :=
+  mk_init_k s0 ws [exit_prog c sup] ks remote.
 
 Definition scenario_init (s0 : stat) (ws : list wpc) (c : cause) (sup : bool) : st :=
-  scenario_init_k s0 ws c sup [].
+  scenario_init_k s0 ws c sup [] false.
 
-Definition run_scenario (s0 : stat) (ws : list wpc) (c : cause) (sup : bool) (ks : list stat) (ops : list op) : list obs :=
-  observe (sched ops) (scenario_init_k s0 ws c sup ks).
+Definition run_scenario (s0 : stat) (ws : list wpc) (c : cause) (sup : bool) (ks : list stat) (remote : bool) (ops : list op) : list obs :=
+  observe (sched ops) (scenario_init_k s0 ws c sup ks remote).
 
-Definition scenario_statuses (s0 : stat) (ws : list wpc) (c : cause) (sup : bool) (ks : list stat) (ops : list op) : list stat :=
-  statuses_go [] [] ops (scenario_init_k s0 ws c sup ks).
+Definition scenario_statuses (s0 : stat) (ws : list wpc) (c : cause) (sup : bool) (ks : list stat) (remote : bool) (ops : list op) : list stat :=
+  statuses_go [] [] ops (scenario_init_k s0 ws c sup ks remote).
 
 (* executions of the cleanup block (observed by the harness as the number of process-group
    Leave notifications for the actor) and what the property says about that number: never
    twice, and once by the time the actor is Stopped.  (That the code runs it already at
    Stopping is part of the model and of the compared view, not of the oracle.) *)
-Definition scenario_cleanups (s0 : stat) (ws : list wpc) (c : cause) (sup : bool) (ks : list stat) (ops : list op) : N :=
-  cleanups (gh (run (sched ops) (scenario_init_k s0 ws c sup ks))).
+Definition scenario_cleanups (s0 : stat) (ws : list wpc) (c : cause) (sup : bool) (ks : list stat) (remote : bool) (ops : list op) : N :=
+  cleanups (gh (run (sched ops) (scenario_init_k s0 ws c sup ks remote))).
 
 Definition check_cleanup (n : N) (final : stat) : bool :=
   (n <=? 1) && (if rank final =? 6 then n =? 1 else true).
 
 (* was the schedule maximal: the actor task has finished and the status is Stopped *)
-Definition scenario_complete (s0 : stat) (ws : list wpc) (c : cause) (sup : bool) (ks : list stat) (ops : list op) : bool :=
-  let s := run (sched ops) (scenario_init_k s0 ws c sup ks) in
+Definition scenario_complete (s0 : stat) (ws : list wpc) (c : cause) (sup : bool) (ks : list stat) (remote : bool) (ops : list op) : bool :=
+  let s := run (sched ops) (scenario_init_k s0 ws c sup ks remote) in
   threads_done s && stat_eqb (status s) Stopped.
